@@ -27,13 +27,13 @@ PROPERTY = "C19"
 META = {
     "level_text": "TLC decides the clauses of C19 as action properties of CacheStack.tla: on the complete reachable state graph (histories of any "
                   "length; time is 'seconds left', floored at 0) for every stack without a Versioned layer incl. two stacked LRU layers and foreign "
-                  "undecodable backend entries, and on every history up to a depth bound for every stacking order with a Versioned layer (two views "
+                  "undecodable backend entries, and on every history up to a depth bound for the stacking orders with a Versioned layer (quick: 8 of the 12, thorough: all; two views "
                   "of different versions over one shared lower stack), 2 keys x 2 values x ttl 1..2 x default ttl 1..2 x capacity 1..2. Every "
                   "transition of a generation graph and every behaviour allowed for seeded random scripts (3 keys/values/views, capacity and TTLs "
                   "1..3, map-iteration nondeterminism resolved by TLC as a set of allowed behaviours) is replayed on the real wrappers over "
                   "cache.NewMockCache() in a synctest bubble; replies (bytes exactly), errors and the full backend content are compared after "
                   "every operation. Placement: JumpHash.tla decided for all jump sets x all pairs of lists over N names; recorded PickServer "
-                  "results of the real selector (lists of 1..65 names, 5 address formats) validated by TLC.",
+                  "results of the real selector (lists of 1..65 names in naturally sorted, byte-wise sorted, reversed, rotated and shuffled input order, 5 address formats) validated by TLC.",
     "level_note": "Trusted: TLC; the mock backend (cache.MockCache) as the backend's semantics; the driver's mapping of model values/keys/versions to "
                   "concrete bytes (empty, 1 byte, 64 KiB compressible, 64 KiB random, a valid snappy block) and of numbered server names to integers "
                   "(natural order of the generated names = numeric order by construction). Encode/decode fidelity is exercised on those byte strings "
@@ -135,16 +135,17 @@ def run(ctx):
     allv, shared = "{3, 5, 6, 9, 10, 11, 12, 13, 14, 15, 16, 18}", "{6, 13, 14, 16}"
     if quick:
         decide = [("MC_quick_single.cfg", {}),
-                  ("MC_views.cfg", {"@@STACKS@@": allv, "@@MAXOPS@@": 2, "@@CAPS@@": "{1}"})]
+                  ("MC_views.cfg", {"@@STACKS@@": "{3, 5, 6, 10, 11, 13, 14, 16}", "@@MAXOPS@@": 2, "@@CAPS@@": "{1}"})]   # thorough: all 12
     else:
         decide = [("MC_single.cfg", {}),
                   ("MC_views.cfg", {"@@STACKS@@": allv, "@@MAXOPS@@": 3, "@@CAPS@@": "{1, 2}"}),
                   ("MC_views.cfg", {"@@STACKS@@": shared, "@@MAXOPS@@": 4, "@@CAPS@@": "{1}"})]
-    for cfg, subst in (decide if "decide" in phases else []):
+    for n, (cfg, subst) in enumerate(decide if "decide" in phases else []):
+        cov = (not quick) and n < 2          # vacuity guard on the first two thorough configs (coverage costs time)
         r = ctx.tlc("cache", "CacheStack", cfg=cfg, subst=subst or None, workers=workers(), timeout=(780 if not quick else 300) * scale,
-                    deadlock=False, coverage=not quick)
+                    deadlock=False, coverage=cov)
         ctx.require_tlc_ok(r, cfg)
-        if not quick:
+        if cov:
             zero = [a for a in r.coverage_zero if a in CORE_ACTIONS and not (a == "PokeOp" and cfg == "MC_views.cfg")]
             if zero:
                 incon("%s: actions with zero coverage: %s" % (cfg, zero))
@@ -203,7 +204,7 @@ def run_scripts(ctx, quick, scale):
 
 def run_placement(ctx, quick, scale, selftest):
     # 4. code -> spec: placement ------------------------------------------------------------------------
-    chains, nkeys = (3, 60) if quick else (10, 400)
+    chains, nkeys = (3, 40) if quick else (10, 200)
     first = None
     for attempt in (1, 2):
         trace = ctx.path("placement_%d.ndjson" % attempt)
@@ -235,7 +236,7 @@ def run_placement(ctx, quick, scale, selftest):
             res.setdefault("mismatches", None)
             res["mismatches"] = (res.get("mismatches") or []) + [{
                 "sig": "placement:%s format=%s" % (verdict, fmt),
-                "case": {"event": idx, "servers": ev.get("servers"), "internal": ev.get("internal"), "format": fmt},
+                "case": {"event": idx, "order": ev.get("order"), "servers": ev.get("servers"), "internal": ev.get("internal"), "format": fmt},
                 "got": {"picks": (ev.get("picks") or [])[:20]}, "want": "JumpHash.tla: " + verdict}]
             ctx.absorb(res, "placement")
             break
